@@ -339,8 +339,8 @@ def run(index, tier="quick", seed=0) -> Result:
             continue
         g = zips[0]
         a0, a1 = g.iter.args
-        rolled = [x for x in (a0, a1) if isinstance(x, ast.Call) and ast.unparse(x.func).endswith("roll")]
-        sliced = isinstance(a0, ast.Subscript) and isinstance(a1, ast.Subscript)
+        rolled = [x for x in (a0, a1) if _is_cyclic_shift(x)]
+        sliced = isinstance(a0, ast.Subscript) and isinstance(a1, ast.Subscript) and not rolled
         order_tests = [t for t in g.ifs if isinstance(t, ast.Compare) and len(t.ops) == 1 and isinstance(t.ops[0], (ast.Lt, ast.Gt, ast.LtE, ast.GtE))]
         if rolled and len(rolled) == 1:
             if order_tests:
@@ -437,6 +437,23 @@ def _cyclic_modulus(res, index):
                         res.bad("CYC-1", key + ":foreign-length", f"{fn.file}:{n.lineno}", f"{cname}.{fn.name}: `{ast.unparse(n)[:80]}` reduces a distance between two "
                                 f"positions of `{seq}` modulo the length of `{other}`: for two faces of different length the wrap-around of the closing edge is "
                                 "misjudged (a hexagon reached from a quadrilateral: 5 % 4 == 1)")
+
+
+def _is_cyclic_shift(x):
+    """np.roll(face, k)  |  face[(np.arange(n) + k) % n]  |  np.concatenate((face[k:], face[:k])): the cycle shifted, closed."""
+    if isinstance(x, ast.Call) and ast.unparse(x.func).endswith("roll"):
+        return True
+    if isinstance(x, ast.Subscript) and isinstance(x.slice, ast.BinOp) and isinstance(x.slice.op, ast.Mod) \
+            and isinstance(x.slice.left, ast.BinOp) and isinstance(x.slice.left.op, (ast.Add, ast.Sub)) and "arange" in ast.unparse(x.slice.left):
+        return True
+    if isinstance(x, ast.Call) and ast.unparse(x.func).split(".")[-1] in ("concatenate", "hstack", "append") and x.args:
+        parts = x.args[0].elts if (isinstance(x.args[0], (ast.Tuple, ast.List)) and len(x.args[0].elts) == 2) else (list(x.args[:2]) if len(x.args) >= 2 else [])
+        if len(parts) == 2 and all(isinstance(p_, ast.Subscript) and isinstance(p_.slice, ast.Slice) and p_.slice.step is None for p_ in parts) \
+                and ast.dump(parts[0].value) == ast.dump(parts[1].value):
+            a_, b_ = parts[0].slice, parts[1].slice
+            if a_.upper is None and b_.lower is None and a_.lower is not None and b_.upper is not None and ast.dump(a_.lower) == ast.dump(b_.upper):
+                return True
+    return False
 
 
 def _union_find(fn_node):
